@@ -681,6 +681,13 @@ func (p *Parser) parseSwitch() ast.Node {
 				p.nextToken() // move to the following expression
 				caseExprs = append(caseExprs, p.parseExpression(LOWEST))
 			}
+			for _, caseExpr := range caseExprs {
+				if caseExpr == nil {
+					// e.g. a line break after "case" or after a comma
+					p.setTokenError(p.curToken, "invalid syntax in case expression")
+					return nil
+				}
+			}
 		} else {
 			p.setTokenError(p.curToken, "expected 'case' or 'default' (got %s)", p.curToken.Literal)
 			return nil
@@ -1741,6 +1748,11 @@ func (p *Parser) parseMapOrSet() ast.Node {
 		p.nextToken() // move to the ":"
 		p.nextToken() // move to the first value
 		firstValue := p.parseExpression(LOWEST)
+		if firstKey == nil || firstValue == nil {
+			// e.g. a line break after the colon: don't store a nil expression
+			p.setTokenError(p.curToken, "invalid syntax in map expression")
+			return nil
+		}
 		pairs := map[ast.Expression]ast.Expression{firstKey: firstValue}
 		for !p.peekTokenIs(token.RBRACE) {
 			if p.peekTokenIs(token.NEWLINE) {
@@ -1777,6 +1789,10 @@ func (p *Parser) parseMapOrSet() ast.Node {
 		}
 		return ast.NewMap(firstToken, pairs)
 	} else { // This is a set
+		if firstKey == nil {
+			p.setTokenError(p.curToken, "invalid syntax in set expression")
+			return nil
+		}
 		items := []ast.Expression{firstKey}
 		if p.peekTokenIs(token.COMMA) {
 			p.nextToken()
@@ -1797,6 +1813,10 @@ func (p *Parser) parseMapOrSet() ast.Node {
 				return nil
 			}
 			key := p.parseExpression(LOWEST)
+			if key == nil {
+				p.setTokenError(p.curToken, "invalid syntax in set expression")
+				return nil
+			}
 			items = append(items, key)
 			if !p.peekTokenIs(token.COMMA) {
 				break
